@@ -16,6 +16,7 @@ import (
 	"github.com/cosmos/cosmos-proto/zzverif/proj"
 	"google.golang.org/protobuf/encoding/protowire"
 	"google.golang.org/protobuf/proto"
+	"google.golang.org/protobuf/types/dynamicpb"
 )
 
 func init() {
@@ -191,6 +192,11 @@ func cmdVarintSweep(args []string) {
 
 func init() { extraCmds["skip-sweep"] = cmdSkipSweep }
 
+// groupDepthLimit: the deepest nesting of groups protowire.ConsumeField (and with it every
+// protobuf-go decoder's handling of unknown groups) accepts: a budget of 10000 levels below the
+// outermost record.
+const groupDepthLimit = 10001
+
 // cmdSkipSweep: well-formed records built from a description (field number, wire type, payload
 // length / varint width), each followed by trailing bytes; runtime.Skip must return exactly the
 // record's length, and a message type that does not declare the field must store the record
@@ -235,6 +241,15 @@ func cmdSkipSweep(args []string) {
 		if pn := catch(func() {
 			for _, in := range [][]byte{rec, append(append([]byte(nil), rec...), protowire.AppendVarint(protowire.AppendTag(nil, protowire.Number(nums[len(nums)-1]), protowire.VarintType), 300)...)} {
 				m := mt.New().Interface()
+				if wt == 3 && n > groupDepthLimit {
+					// nested deeper than the reference decoders' budget: the outcome of decoding is
+					// the reference's (Skip itself is left unconstrained by Trace_Skip)
+					err, rerr := proto.Unmarshal(in, m), proto.Unmarshal(in, dynamicpb.NewMessage(md))
+					if (err == nil) != (rerr == nil) {
+						note += fmt.Sprintf("unmarshal: %v, reference: %v; ", err, rerr)
+					}
+					continue
+				}
 				if err := proto.Unmarshal(in, m); err != nil {
 					note += "unmarshal: " + err.Error() + "; "
 					continue
@@ -311,6 +326,48 @@ func cmdSkipSweep(args []string) {
 		}
 	}
 	tpad = 0
+	// every small field number with the two fixed-width wire types (one- and two-byte tags)
+	for num := 1; num <= 80; num++ {
+		if md.Fields().ByNumber(protowire.Number(num)) != nil || md.ReservedRanges().Has(protowire.Number(num)) {
+			continue
+		}
+		emit(num, 1, 0, 0, 0, append(protowire.AppendTag(nil, protowire.Number(num), protowire.Fixed64Type), 0x80, 0x81, 3, 4, 5, 6, 7, 0x80))
+		emit(num, 5, 0, 0, 0, append(protowire.AppendTag(nil, protowire.Number(num), protowire.Fixed32Type), 0x80, 0xff, 0xff, 0xff))
+	}
+	// groups: k start tags, `inner` one-byte varint records of field 1, k end tags. Every depth
+	// up to the reference budget must be skipped exactly (described as wt = 3, n = k, vlen = inner);
+	// every second one is preceded by a call on an ill-formed input that leaves groups open -- what
+	// one call did must not change the next
+	groupRec := func(num, k, inner int) []byte {
+		var rec []byte
+		for i := 0; i < k; i++ {
+			rec = protowire.AppendTag(rec, protowire.Number(num), protowire.StartGroupType)
+		}
+		for i := 0; i < inner; i++ {
+			rec = append(rec, 0x08, 0x01)
+		}
+		for i := 0; i < k; i++ {
+			rec = protowire.AppendTag(rec, protowire.Number(num), protowire.EndGroupType)
+		}
+		return rec
+	}
+	gi := 0
+	for _, k := range []int{1, 2, 3, 4, 31, 32, 33, 63, 64, 65, 99, 100, 101, 102, 127, 128, 129, 255, 256, 257, 999, 1000, 1001, 4096, 9999, 10000, groupDepthLimit, groupDepthLimit + 1, groupDepthLimit + 2, 20000} {
+		for _, num := range []int{nums[0], nums[2], nums[len(nums)-1]} {
+			if k > 1001 && num != nums[0] && num != nums[2] {
+				continue
+			}
+			for _, inner := range []int{0, 1, 3} {
+				if gi++; gi%2 == 0 {
+					catch(func() {
+						pulsarrt.Skip([]byte{0x2b, 0x33, 0x08, 0x01})
+						proto.Unmarshal(append(protowire.AppendTag(nil, protowire.Number(num), protowire.StartGroupType), 0x2b, 0x08), mt.New().Interface())
+					})
+				}
+				emit(num, 3, k, inner, 0, groupRec(num, k, inner))
+			}
+		}
+	}
 	for _, num := range nums {
 		emit(num, 1, 0, 0, 0, append(protowire.AppendTag(nil, protowire.Number(num), protowire.Fixed64Type), 1, 2, 3, 4, 5, 6, 7, 0x80))
 		emit(num, 5, 0, 0, 0, append(protowire.AppendTag(nil, protowire.Number(num), protowire.Fixed32Type), 0xff, 0xff, 0xff, 0xff))
